@@ -196,7 +196,7 @@ def gen_runopts(rng, backend):
     if bad:
         sg = rng.choice(segs)
         if rng.random() < 0.5:
-            sg.append(dict(cls="MeasureHomodyne", regs=[0], pars=[0.0], select=rng.choice([0.0, 0.5])))   # select 0.0 is falsy
+            sg.append(dict(cls="MeasureHomodyne", regs=[0], pars=[0.0], select=rng.choice([0.0, 0.5])))   # 0.0 is a selection too
         else:
             sg += [dict(cls="MeasureHomodyne", regs=[1], pars=[0.0]), dict(cls="Dgate", regs=[0], pars=[dict(m=1, k=1), 0.0])]
     kw = {}
@@ -371,6 +371,12 @@ def compare_session(ctx, case, real, model):
     msteps = model["steps"]
     if any(s.get("err") in ("unmodelled", "fuel") for s in msteps):
         ctx.tally("corr:unmodelled")
+        return
+    if real["err"] == "ValueError" and any("inhomogeneous" in (st.get("tb") or "") for st in real["steps"]):
+        # a back end returned another number of samples than `shots` for one of the measurements of a segment (e.g. the
+        # Gaussian homodyne returns one sample whatever `shots`): np.transpose of the ragged columns fails in
+        # _combine_and_sort_samples.  The model pads; numerics of the back ends are outside it.
+        ctx.tally("corr:ragged samples (back end ignored shots)")
         return
     if real["err"] is not None and real["in_call"]:
         # the numerical back end itself raised inside an API call: the model (which knows nothing about the numerics) must
